@@ -34,11 +34,11 @@ POOL = [
     ("one", 0x31), ("two", 0x32), ("one-ar", 0x661), ("period", 0x2E), ("comma", 0x2C), ("hyphen", 0x2D), ("space", 0x20),
     ("comma-ar", 0x60C), ("tatweel", 0x640), ("danda", 0x964), ("udatta", 0x951), ("percent-ar", 0x66A),
     ("acutecomb", 0x301), ("gravecomb", 0x300), ("fatha-ar", 0x64E), ("anusvara-deva", 0x902),
-    ("u1", None), ("u2", None), ("a.alt", None), ("alef-ar.fina", None), ("V.alt", None), ("period.alt", None),
+    ("u1", None), ("u2", None), ("a.alt", None), ("alef-ar.fina", None), ("V.alt", None), ("period.alt", None), ("lowlinecomb", 0x332),  # the last one: script extension exactly {Zinh}
     ("ayb-arm", 0x531), ("ben-arm", 0x532), ("thaa", 0x780), ("Beta", 0x392), ("alpha-gr", 0x3B1), ("ka-geor", 0x10D9),
 ]
 POOLD = dict(POOL)
-MARKS = {"acutecomb", "gravecomb", "fatha-ar", "anusvara-deva", "udatta"}
+MARKS = {"acutecomb", "gravecomb", "fatha-ar", "anusvara-deva", "udatta", "lowlinecomb"}
 ALTS = {"a.alt": "a", "alef-ar.fina": "alef-ar", "V.alt": "V", "period.alt": "period"}  # incl. an alternate reachable only from a script- and direction-neutral glyph
 TAGS = ["latn", "cyrl", "arab", "hebr", "dev2", "deva", "grek", "kana", "armn", "thaa"]
 
@@ -58,10 +58,10 @@ def folded_bidi_of_name(n):
 
 
 LTR_POOL = [p for p in POOL if p[0] in ("A", "B", "V", "a", "o", "Ya-cy", "be-cy", "Alpha", "ka-deva", "ga-deva", "a-hira", "a-kata", "one", "two", "period", "comma",
-                                        "hyphen", "space", "danda", "acutecomb", "gravecomb", "anusvara-deva", "u1", "u2", "a.alt", "V.alt", "ayb-arm", "ben-arm", "Beta", "alpha-gr", "ka-geor")]
+                                        "hyphen", "space", "danda", "acutecomb", "gravecomb", "anusvara-deva", "u1", "u2", "a.alt", "V.alt", "ayb-arm", "ben-arm", "Beta", "alpha-gr", "ka-geor", "lowlinecomb")]
 MULTI_LTR_POOL = [p for p in POOL if p[0] in ("A", "V", "a", "Ya-cy", "be-cy", "Alpha", "Beta", "alpha-gr", "ayb-arm", "ben-arm", "ka-geor", "period", "u1")]
 RTL_POOL = [p for p in POOL if p[0] in ("alef-ar", "beh-ar", "lam-ar", "alef-hb", "bet-hb", "period", "comma", "hyphen", "space", "comma-ar", "tatweel", "fatha-ar",
-                                        "u1", "u2", "alef-ar.fina", "thaa", "percent-ar")]
+                                        "u1", "u2", "alef-ar.fina", "thaa", "percent-ar", "lowlinecomb")]
 
 
 @st.composite
